@@ -193,8 +193,9 @@ pub fn compensated_exponent_literal() -> impl Strategy<Value = String> {
             // 0.000...0d x 10^(k + extra): the value is d x 10^(extra - len(d))
             format!("{sign}0.{}{d}{e}{}", "0".repeat(k), k + extra)
         } else {
-            // d000...0 x 10^-k
-            format!("{sign}{d}{}{e}-{}", "0".repeat(k), k)
+            // d000...0 x 10^-k, also with a decimal point (and a fraction) after the long integer part
+            let point = ["", ".", ".0", ".000", ".5", ".25"][(k + extra * 7 + d.len()) % 6];
+            format!("{sign}{d}{}{point}{e}-{}", "0".repeat(k), k)
         }
     })
 }
